@@ -112,6 +112,11 @@ ARM64 = {
                     asm="adrp x0, {t}"),
     "mov_sym": dict(b=_w(0x10000000), kind="ord", sym=(0, 4),
                     asm="adr x0, {t}"),
+    # relocation modifier on the operand (the expression carries LO12)
+    "addlo_sym": dict(b=_w(0x91000000), kind="ord", sym=(0, 1),
+                      asm="add x0, x0, :lo12:{t}", attrs=("LO12",)),
+    "ldrlo_sym": dict(b=_w(0xF9400000), kind="ord", sym=(0, 1),
+                      asm="ldr x0, [x0, :lo12:{t}]", attrs=("LO12",)),
     "mark": dict(b=_w(0x52800009), kind="ord", imm16=True,
                  asm="mov w9, #{imm}"),
     "jmp": dict(b=_w(0x14000000), kind="jmp", sym=(0, 3), asm="b {t}"),
@@ -139,6 +144,10 @@ MIPS32 = {
     "add": dict(b=_wb(0x25080001), kind="ord", asm="addiu $t0, $t0, 1"),
     "mov_rr": dict(b=_wb(0x01004825), kind="ord", asm="move $t1, $t0"),
     "xor": dict(b=_wb(0x01084026), kind="ord", asm="xor $t0, $t0, $t0"),
+    "lui_hi": dict(b=_wb(0x3C080000), kind="ord", sym=(0, 2),
+                   asm="lui $t0, %hi({t})", attrs=("HI",)),
+    "addiu_lo": dict(b=_wb(0x25080000), kind="ord", sym=(0, 2),
+                     asm="addiu $t0, $t0, %lo({t})", attrs=("LO",)),
     "mark": dict(b=_wb(0x24090000), kind="ord", imm16lo=True,
                  asm="addiu $t1, $zero, {imm}"),
     "call": dict(b=_wb(0x0C000000) + "00000000", kind="call", sym=(0, 3),
@@ -159,6 +168,7 @@ for _v in VOCAB.values():
         _e.setdefault("imm16", False)
         _e.setdefault("imm16lo", False)
         _e.setdefault("patch", True)
+        _e.setdefault("attrs", ())
         _e["size"] = len(_e["b"]) // 2
 
 NOP = {"x64": b"\x90", "ia32": b"\x90",
